@@ -747,6 +747,10 @@ func (c *EvalCtx) evalCall(e *Expr) TVal {
 	case "cap":
 		v := c.eval(e.Args[0])
 		return c.mk("(s-cap "+v.T+")", sInt, ti)
+	case "samearray":
+		// samearray(a, b): the slices a and b share their backing array
+		a, b := c.eval(e.Args[0]), c.eval(e.Args[1])
+		return c.mk("(= (s-arr "+a.T+") (s-arr "+b.T+"))", sBool, tb)
 	case "in":
 		m := c.eval(e.Args[0])
 		k := c.eval(e.Args[1])
